@@ -404,7 +404,14 @@ Fixpoint pval (v : value) : Prop :=
   | VDict kvs => Forall (fun kv => pascii (fst kv) /\ pascii (snd kv)) kvs
   | VList items => Forall pascii items
   | VNpArray x => pval x
+  | VSub x => pval x
   end.
+
+Lemma pval_unsub v : pval v -> pval (unsub v).
+Proof. induction v; cbn [unsub pval]; auto. Qed.
+
+Lemma unsub_idem v : unsub (unsub v) = unsub v.
+Proof. induction v; cbn [unsub]; auto. Qed.
 
 Lemma pascii_bool_text b : pascii (bool_text b).
 Proof. destruct b; apply pasciib_pascii; reflexivity. Qed.
@@ -488,6 +495,7 @@ Proof.
   - apply Ok_inj in H; subst t. now apply wf_take_ljust.
   - apply Ok_inj in H; subst t. apply wf_take_pad; [apply pascii_spaces|rewrite spaces_length; lia].
   - apply Ok_inj in H; subst t. apply wf_take_pad; [apply pascii_spaces|rewrite spaces_length; lia].
+  - (* VSub *) apply Ok_inj in H; subst t. apply wf_take_pad; [apply pascii_spaces|rewrite spaces_length; lia].
 Qed.
 
 Lemma np_map_pval v v' : pval v -> np_map v = Ok v' -> pval v'.
@@ -501,8 +509,8 @@ Definition pcell (c : cell) : Prop := pval (cv c).
 Lemma type_formatter_wf c w t : pcell c -> 1 <= w -> type_formatter c w = Ok t -> wf t w.
 Proof.
   unfold type_formatter, pcell. intros Hc Hw H.
-  destruct (np_map (cv c)) as [v'|e] eqn:E; cbn [bind] in H; [|discriminate].
-  apply (fmt_value_wf v' w t); [exact (np_map_pval _ _ Hc E)|exact Hw|exact H].
+  destruct (np_map (unsub (cv c))) as [v'|e] eqn:E; cbn [bind] in H; [|discriminate].
+  apply (fmt_value_wf (unsub v') w t); [exact (pval_unsub _ (np_map_pval _ _ (pval_unsub _ Hc) E))|exact Hw|exact H].
 Qed.
 
 (* ------------------------------------------------------------------ *)
@@ -521,5 +529,25 @@ Qed.
 
 Lemma type_formatter_total c w : exists t, type_formatter c w = Ok t.
 Proof.
-  unfold type_formatter. destruct (np_map_total (cv c)) as [v' ->]. cbn [bind]. apply fmt_value_total.
+  unfold type_formatter. destruct (np_map_total (unsub (cv c))) as [v' ->]. cbn [bind]. apply fmt_value_total.
 Qed.
+
+(* ------------------------------------------------------------------ *)
+(* subclass instances: every observer of a cell the renderers use (is_none, cell_str = str(value) as supplied,
+   type_formatter) gives a subclass instance what it gives the base-class instance of equal content *)
+Lemma is_none_sub v s : is_none (mkcell (VSub v) s) = is_none (mkcell v s).
+Proof. reflexivity. Qed.
+
+Lemma cell_str_sub v s : cell_str (mkcell (VSub v) s) = cell_str (mkcell v s).
+Proof. reflexivity. Qed.
+
+Lemma type_formatter_sub v s w : type_formatter (mkcell (VSub v) s) w = type_formatter (mkcell v s) w.
+Proof. reflexivity. Qed.
+
+Lemma type_formatter_unsub c w : type_formatter (mkcell (unsub (cv c)) (cs c)) w = type_formatter c w.
+Proof. unfold type_formatter. cbn [cv]. now rewrite unsub_idem. Qed.
+
+(* an ndarray subclass instance (masked array, matrix, recarray, ...) of any content is formatted as its tolist() is *)
+Lemma subarray_as_tolist x s w :
+  type_formatter (mkcell (VSub (VNpArray x)) s) w = fmt_value (unsub x) w.
+Proof. reflexivity. Qed.
